@@ -6,7 +6,7 @@ HOOKS = {
     "source_commits": [],
     "add_only": True,
 }
-NOTES = ("Every check = proof gate (lake build, forbidden-token scan, #print axioms of the property theorems; for C01 C02 C03 C04 C08 C10 C11 C12 C15 C17 also "
+NOTES = ("Every check = proof gate (lake build, forbidden-token scan, #print axioms of the property theorems; for C01 C02 C03 C04 C05 C08 C10 C11 C12 C15 C17 also "
          "the generated-model gate: re-translation of the Python sources by tools/py2lean.py and re-check of BBProofs/GenEq.lean) + correspondence "
          "(real bblean from /repo vs the compiled Lean model on the same histories) + direct oracle search; see DESIGN.md §2.2. "
          "Fix commits in /repo: see known_findings.json.")
@@ -174,11 +174,12 @@ CLAIMS = {
                 "order), C05_centroids / C05_centroid_is_majority (saved centroids aligned with the clusters and equal to the majority vote "
                 "of each cluster's members), C05_exact, C05_pairing / C05_prevPairs (sorted buffer listing zipped with sorted index listing "
                 "pairs every buffer file with its own member list), C05_handover, C05_zfill_*; for every valid policy family and every "
-                "initial directory. Correspondence: every round-* file, clusters and centroids of the real workflow vs the model.",
+                "initial directory. Correspondence: every round-* file, clusters and centroids of the real workflow vs the model."
+                + GEN.format(src="_BFSubcluster.__init__ of bitbirch.py (the re-import of a saved buffer with its member-list check; theorem gen_subcluster_init_buffer in BBProofs/GenEq6.lean)", prop="C05"),
         "note": TB + "PARTIAL: .npy streaming and pickle encodings are trusted to round-trip (file contents are model values; covered by the "
                 "file-by-file correspondence only). max_fps / max_files debug options and save_tree pickles are outside the model. "
                 "Round-1 trees take the default tolerance (the code does not pass `tolerance` to them): modelled as is.",
-        "technique": "Lean 4 theorems over executable workflow model + file-by-file differential correspondence",
+        "technique": TGEN,
     },
     "C06": {
         "text": "C06_names_inj (buffer/index names determine round, label, width; never collide), C06_disjoint (tasks of a round write "
